@@ -34,9 +34,13 @@ fn earlier_has(entries: &'static [CommandNameEntry], upto: usize, cand: &str) ->
 /// every candidate of a table, in every letter case (symbolic case mask), resolves to its own entry's
 /// command -- and no candidate is shadowed by an earlier entry (the resolution is unambiguous)
 fn table_total(entries: &'static [CommandNameEntry]) {
+    table_range(entries, 0, entries.len());
+}
+/// entries lo..hi of the table (one harness per slice keeps each query small)
+fn table_range(entries: &'static [CommandNameEntry], lo: usize, hi: usize) {
     let mask: u32 = kani::any();
-    let mut e = 0;
-    while e < entries.len() {
+    let mut e = lo;
+    while e < hi && e < entries.len() {
         let mut k = 0;
         while k < entries[e].candidates.len() {
             let cand = entries[e].candidates[k];
@@ -64,11 +68,22 @@ fn table_total(entries: &'static [CommandNameEntry]) {
     kani::cover!(mask & 0xFF == 0xA5);
 }
 
-#[kani::proof]
-#[kani::unwind(26)]
-fn c14_names_main_table() {
-    table_total(COMMANDS);
+macro_rules! names_slice {
+    ($name:ident, $lo:expr, $hi:expr) => {
+        #[kani::proof]
+        #[kani::unwind(26)]
+        fn $name() {
+            assert!(COMMANDS.len() == 18, "command table changed size: adjust the slices");
+            table_range(COMMANDS, $lo, $hi);
+        }
+    };
 }
+names_slice!(c14_names_main_0, 0, 3);
+names_slice!(c14_names_main_1, 3, 6);
+names_slice!(c14_names_main_2, 6, 9);
+names_slice!(c14_names_main_3, 9, 12);
+names_slice!(c14_names_main_4, 12, 15);
+names_slice!(c14_names_main_5, 15, 18);
 #[kani::proof]
 #[kani::unwind(26)]
 fn c14_names_subcommands() {
